@@ -15,10 +15,118 @@ pub const ID: &str = "C07";
 
 pub fn total_runs(ctx: &mut Ctx) -> u64 {
     let n = ctx.rotation().len() as u64;
-    match ctx.tier {
-        Tier::Quick => n * 150,
-        Tier::Thorough => n * 3000,
+    let sweep = sweep_layout(ctx).len() as u64;
+    sweep
+        + match ctx.tier {
+            Tier::Quick => n * 150,
+            Tier::Thorough => n * 3000,
+        }
+}
+
+/// One item of the single-fault sweep that precedes the seeded histories (fault enumeration,
+/// independent of VERIF_SEED): one error fault at *every* I/O event of the open call, and at
+/// every event of each kind of read call, of every fixture — followed by the calls that must
+/// still give the model's answer (or fail in the faulted call itself).
+#[derive(Clone, Debug)]
+pub struct SweepItem {
+    pub fixture: usize,
+    pub entry: Entry,
+    pub ops: Vec<Op>,
+    pub fault: crate::simdisk::PlacedFault,
+}
+
+fn sweep_histories(format: Format, n_sheets: usize, n_tables: usize) -> Vec<Vec<Op>> {
+    let s0 = SheetArg::Idx(0);
+    let last = SheetArg::Idx(n_sheets.saturating_sub(1));
+    let mut v: Vec<Vec<Op>> = vec![
+        vec![Op::Range(s0.clone()), Op::Range(s0.clone()), Op::Formula(s0.clone()), Op::Range(last.clone())],
+        vec![Op::Formula(s0.clone()), Op::Formula(s0.clone()), Op::Range(s0.clone())],
+        vec![Op::Worksheets, Op::Worksheets, Op::Range(last.clone())],
+        vec![Op::Vba, Op::Vba, Op::Range(s0.clone())],
+    ];
+    if format.is_lazy() {
+        v.push(vec![Op::RangeRef(s0.clone()), Op::RangeRef(s0.clone()), Op::Range(s0.clone())]);
+        v.push(vec![Op::SetHeader(Some(1)), Op::Range(last.clone()), Op::Range(last.clone()), Op::SetHeader(None), Op::Range(last.clone())]);
     }
+    if matches!(format, Format::Xlsx | Format::Xls) {
+        v.push(vec![Op::MergeCells(s0.clone()), Op::MergeCells(s0.clone()), Op::MergeCellsAt(n_sheets.saturating_sub(1))]);
+    }
+    if format == Format::Xlsx {
+        v.push(vec![Op::LoadMerged, Op::LoadMerged, Op::MergedAll, Op::MergedBySheet(s0.clone())]);
+        let mut t = vec![Op::LoadTables, Op::LoadTables, Op::TableNames];
+        for k in 0..n_tables.min(3) {
+            t.push(Op::TableByName(SheetArg::Idx(k)));
+        }
+        v.push(t);
+        if n_tables > 0 {
+            v.push(vec![Op::LoadTables, Op::TableByName(SheetArg::Idx(0)), Op::TableByName(SheetArg::Idx(0)), Op::TableByNameRef(SheetArg::Idx(n_tables - 1))]);
+        }
+    }
+    v
+}
+
+pub fn sweep_layout(ctx: &mut Ctx) -> std::sync::Arc<Vec<SweepItem>> {
+    if let Some(l) = &ctx.c07_sweep {
+        return l.clone();
+    }
+    use crate::simdisk::{FaultKind, PlacedFault};
+    let mut items = Vec::new();
+    let real: Vec<usize> = (0..ctx.corpus.len()).filter(|i| !ctx.corpus[*i].name.starts_with("synth-")).collect();
+    // quick: a third of the fixtures in rotation order would depend on the seed; take every file but cap the events
+    let cap = match ctx.tier {
+        Tier::Quick => 40usize,
+        Tier::Thorough => 2000,
+    };
+    for fi in real {
+        let fx = ctx.corpus[fi].clone();
+        let (open_ok, n_sheets, n_tables) = {
+            let m = ctx.models.get(&fx);
+            (matches!(m.open, Outcome::Ok(_)), m.sheet_names.len(), m.table_names.len())
+        };
+        if !open_ok || n_sheets == 0 {
+            continue;
+        }
+        let own = Entry::own(fx.format);
+        let limits = Limits::for_input(fx.bytes.len(), crate::model::MODEL_CPU_NS);
+        let after_open: Vec<Op> = vec![Op::Meta, Op::Range(SheetArg::Idx(0)), Op::Range(SheetArg::Idx(n_sheets - 1)), Op::Formula(SheetArg::Idx(0)), Op::Vba, Op::LoadTables, Op::TableNames, Op::LoadMerged, Op::MergedAll, Op::MergeCells(SheetArg::Idx(0))];
+        // events of the open call on a perfect disk
+        for entry in [own, Entry::Auto] {
+            let dry = execute(fx.bytes.clone(), entry, crate::simdisk::Delivery::perfect(), &[], limits, &ExecOpts { capture: false, stop_on_panic: true, probes: &[] });
+            let n = dry.open_events as usize;
+            let step = (n + cap - 1) / cap.max(1);
+            for e in (0..n).step_by(step.max(1)) {
+                for kind in [FaultKind::Eio, FaultKind::Eintr] {
+                    if entry == Entry::Auto && kind == FaultKind::Eintr {
+                        continue;
+                    }
+                    items.push(SweepItem { fixture: fi, entry, ops: after_open.clone(), fault: PlacedFault { op: 0, rel: e as u32, kind } });
+                }
+            }
+        }
+        // events of each kind of read call
+        for h in sweep_histories(fx.format, n_sheets, n_tables) {
+            let dry = execute(fx.bytes.clone(), own, crate::simdisk::Delivery::perfect(), &h, limits, &ExecOpts { capture: false, stop_on_panic: true, probes: &[] });
+            for (call, rec) in dry.ops.iter().enumerate() {
+                // fault the first call that does I/O (and, for histories that start with a load, the call after it)
+                if rec.events == 0 || call > 1 {
+                    continue;
+                }
+                let n = rec.events as usize;
+                let step = (n + cap - 1) / cap.max(1);
+                for e in (0..n).step_by(step.max(1)) {
+                    for kind in [FaultKind::Eio, FaultKind::EioSticky] {
+                        if kind == FaultKind::EioSticky && e % 4 != 0 {
+                            continue;
+                        }
+                        items.push(SweepItem { fixture: fi, entry: own, ops: h.clone(), fault: PlacedFault { op: call as u32 + 1, rel: e as u32, kind } });
+                    }
+                }
+            }
+        }
+    }
+    let l = std::sync::Arc::new(items);
+    ctx.c07_sweep = Some(l.clone());
+    l
 }
 
 fn unknown_name(ch: &mut Chooser, names: &[String]) -> String {
@@ -107,6 +215,28 @@ pub fn gen_op(ch: &mut Chooser, format: Format, names: &[String], n_tables: usiz
 }
 
 pub fn gen(ctx: &mut Ctx, idx: u64) -> (RunSpec, Cfg) {
+    let sweep = sweep_layout(ctx);
+    if (idx as usize) < sweep.len() {
+        let it = &sweep[idx as usize];
+        let fx = ctx.corpus[it.fixture].clone();
+        let mut delivery = crate::simdisk::Delivery::perfect();
+        delivery.faults.push(it.fault);
+        return (
+            RunSpec {
+                property: ID.into(),
+                file: fx.name.clone(),
+                inner: None,
+                entry: it.entry,
+                stored_faults: vec![],
+                delivery,
+                ops: it.ops.clone(),
+                note: format!("single-fault sweep: {:?} at event {} of call {}", it.fault.kind, it.fault.rel, it.fault.op),
+            },
+            // the fault is already placed: nothing for the dry pass to do
+            Cfg::A,
+        );
+    }
+    let idx = idx - sweep.len() as u64;
     let seed = h3(ctx.seed, tag(ID), idx);
     let rot = ctx.rotation();
     let fx = ctx.corpus[rot[(idx % rot.len() as u64) as usize]].clone();
@@ -250,8 +380,8 @@ fn is_unknown_sheet(op: &Op, names: &[String]) -> Option<String> {
 pub fn check(ctx: &mut Ctx, spec: &RunSpec, ex: &Execution) -> (Vec<Violation>, Vec<String>) {
     let mut viol: Vec<Violation> = Vec::new();
     let mut probes: Vec<String> = Vec::new();
-    let fx: Fixture = match crate::corpus::find(&ctx.corpus, &spec.file) {
-        Some(f) => f.clone(),
+    let fx: Fixture = match ctx.fixture(&spec.file) {
+        Some(f) => f,
         None => return (viol, probes),
     };
     let m = ctx.models.get(&fx);
@@ -384,19 +514,10 @@ pub fn check(ctx: &mut Ctx, spec: &RunSpec, ex: &Execution) -> (Vec<Violation>, 
                 last_failed_with_fault = true;
                 continue;
             }
-            Outcome::Absent if err_fault || (dead && rec.fired.dead_hits > 0) => {
-                // Option-returning calls (`vba_project`, `worksheet_merge_cells`) map an I/O failure to `None`
-                probes.push("none_in_call_with_error_fault".into());
-                last_failed_with_fault = true;
-                continue;
-            }
+            // `None` from an Option-returning call means "no such sheet / no VBA project": under a
+            // fault that is wrong data, not a failure (vba_project used to do this; repaired, ab7a206)
             Outcome::Err(_) if eintr => {
                 probes.push("eintr_surfaced_as_error".into());
-                last_failed_with_fault = true;
-                continue;
-            }
-            Outcome::Absent if eintr => {
-                probes.push("eintr_surfaced_as_none".into());
                 last_failed_with_fault = true;
                 continue;
             }
@@ -477,8 +598,8 @@ fn worksheets_subset(m: &mut FileModel, header: Option<u32>, got: &[(String, u64
 }
 
 pub fn exec_spec(ctx: &mut Ctx, spec: &RunSpec, idx: u64) -> RunResult {
-    let fx = match crate::corpus::find(&ctx.corpus, &spec.file) {
-        Some(f) => f.clone(),
+    let fx = match ctx.fixture(&spec.file) {
+        Some(f) => f,
         None => return RunResult { idx, outcome: format!("harness: unknown file {}", spec.file), ..Default::default() },
     };
     let clean = ctx.models.get(&fx).clean_cpu_ns;
@@ -525,7 +646,7 @@ pub fn final_spec(ctx: &mut Ctx, idx: u64) -> RunSpec {
     if cfg != Cfg::C {
         return spec;
     }
-    let fx = crate::corpus::find(&ctx.corpus, &spec.file).unwrap().clone();
+    let fx = ctx.fixture(&spec.file).unwrap();
     let clean = ctx.models.get(&fx).clean_cpu_ns;
     let limits = Limits::for_input(fx.bytes.len(), crate::c08::cpu_budget(clean) * ctx.cpu_scale);
     let dry = execute(fx.bytes.clone(), spec.entry, spec.delivery.clone(), &spec.ops, limits, &ExecOpts { capture: false, stop_on_panic: true, probes: &[] });
